@@ -713,7 +713,8 @@ theorem run_nofile_nodash (a : Args) (w : World) (hh : HomeOK a w) (hn : NoLoop 
     ∃ r0, run a w = deliver a w a.aliasempty false r0 ∧ r0.ueo = some u := by
   obtain ⟨warn, hh⟩ := hh
   unfold NoLoop at hn; rw [← bouncexf_eq_spec] at hn
-  refine ⟨{ stickyWarn := warn, tried := qmeTried w.fs (qmeCandidates a.dash (safeext a.ext)), ueo := some u }, ?_, rfl⟩
+  refine ⟨{ stickyWarn := warn, tried := qmeTried w.fs (qmeCandidates a.dash (safeext a.ext)),
+            stats := ueoStats a.dash (safeext a.ext) a.sender w.ex, ueo := some u }, ?_, rfl⟩
   simp only [run, hh, hn, hs, hu]
   simp [hd]
 
@@ -724,7 +725,8 @@ theorem run_found (a : Args) (w : World) (hh : HomeOK a w) (hn : NoLoop a) (c : 
       run a w = if content = [] then deliver a w a.aliasempty false r0 else deliver a w content (mode &&& xBit ≠ 0) r0 := by
   obtain ⟨warn, hh⟩ := hh
   unfold NoLoop at hn; rw [← bouncexf_eq_spec] at hn
-  refine ⟨{ stickyWarn := warn, tried := qmeTried w.fs (qmeCandidates a.dash (safeext a.ext)), sel := some c,
+  refine ⟨{ stickyWarn := warn, tried := qmeTried w.fs (qmeCandidates a.dash (safeext a.ext)),
+            stats := ueoStats a.dash (safeext a.ext) a.sender w.ex, sel := some c,
             dfltEnv := c.dflt.map (fun i => a.ext.drop i), ueo := some u }, rfl, rfl, ?_⟩
   simp only [run, hh, hn, hs, hu]
   simp
@@ -1000,8 +1002,8 @@ def Rel (W w : LocalSpec.Walk) (t : Trace) : Prop :=
   W.status = finCode t.fin
 
 theorem walk_eq (px : Bytes → PRes) (dx : Instr → Option Why) (fileOK : LocalSpec.SInstr → Nat)
-    (hfile : ∀ i, fileOK (specOfInstr i) = match dx i with | some y => y.code | none => 0)
-    (hnz : ∀ i y, dx i = some y → y.code ≠ 0) :
+    (hfile : ∀ i, isFile i = true → fileOK (specOfInstr i) = match dx i with | some y => y.code | none => 0)
+    (hnz : ∀ i y, isFile i = true → dx i = some y → y.code ≠ 0) :
     ∀ (lines : List Bytes) (w : LocalSpec.Walk), w.status = none →
       Rel ((lines.map LocalSpec.readLine).foldl (LocalSpec.step true (fun c => toRan (px c)) fileOK) w) w
         (dispatch px dx w.first w.forwardOnly lines)
@@ -1147,7 +1149,7 @@ theorem walk_eq (px : Bytes → PRes) (dx : Instr → Option Why) (fileOK : Loca
         · have hfo' : w.forwardOnly = false := by simpa using hfo
           simp only [hfo', Bool.false_eq_true, if_false]
           rw [hfo'] at go
-          have hf := hfile (.mbox f)
+          have hf := hfile (.mbox f) rfl
           simp only [specOfInstr] at hf
           cases hd : dx (.mbox f) with
           | none =>
@@ -1160,7 +1162,7 @@ theorem walk_eq (px : Bytes → PRes) (dx : Instr → Option Why) (fileOK : Loca
             apply go <;> first | exact hw | rfl | exact hfo' | simp [effOf, fwdAddr, cstr_eq_spec]
           | some y =>
             rw [hd] at hf
-            have hy := hnz _ y hd
+            have hy := hnz _ y rfl hd
             have hs : LocalSpec.step true (fun c => toRan (px c)) fileOK w (.mbox f) =
                 { w with first := false, effects := .mbox (LocalSpec.upToNul f) :: w.effects, shown := .mbox f :: w.shown,
                          status := some y.code } := by
@@ -1177,7 +1179,7 @@ theorem walk_eq (px : Bytes → PRes) (dx : Instr → Option Why) (fileOK : Loca
         · have hfo' : w.forwardOnly = false := by simpa using hfo
           simp only [hfo', Bool.false_eq_true, if_false]
           rw [hfo'] at go
-          have hf := hfile (.maildir f)
+          have hf := hfile (.maildir f) rfl
           simp only [specOfInstr] at hf
           cases hd : dx (.maildir f) with
           | none =>
@@ -1190,7 +1192,7 @@ theorem walk_eq (px : Bytes → PRes) (dx : Instr → Option Why) (fileOK : Loca
             apply go <;> first | exact hw | rfl | exact hfo' | simp [effOf, fwdAddr, cstr_eq_spec]
           | some y =>
             rw [hd] at hf
-            have hy := hnz _ y hd
+            have hy := hnz _ y rfl hd
             have hs : LocalSpec.step true (fun c => toRan (px c)) fileOK w (.maildir f) =
                 { w with first := false, effects := .maildir (LocalSpec.upToNul f) :: w.effects, shown := .maildir f :: w.shown,
                          status := some y.code } := by
